@@ -30,7 +30,17 @@ holds at the moment of the call (an earlier call must not influence a later one)
 str texts of the grammar and fails only here gets a key suffix ':only-for-a-list-of-lines',
 ':only-when-the-parsed-list-of-lines-was-edited-in-place-and-parsed-again' or
 ':only-when-the-unchanged-list-object-is-parsed-again'.
-Supporting (diagnostic only): the parser's nullable / FIRST / FOLLOW of the user's symbols equal the spec.
+Description objects shared between parsers (harness/c02_shared.py): the constructor's arguments are descriptions the
+caller writes once and re-uses - an AnyTokenExcept('x') constant in the grammars of several parsers, one productions
+dict given to parsers with different tokenizers.  Sessions build several parsers in ONE process from the same
+objects (tokenizers with more / fewer / the same / other token kinds, both factorization settings; all parsers
+constructed before any is used, or each used before the next is constructed) and judge every parser by ITS grammar:
+the template with every AnyTokenExcept(ex) replaced by one alternative (t,) per token kind t of that parser's own
+tokenizer, t not in ex (the docstring of AnyTokenExcept).  All clauses unchanged; a clause that holds for parsers
+constructed from freshly written objects and fails only here gets the key suffix
+':only-when-the-description-objects-were-already-used-for-another-parser'.
+Supporting (diagnostic only): the parser's nullable / FIRST / FOLLOW of the user's symbols equal the spec; the
+constructor leaves the caller's productions dict as it was.
 """
 import itertools
 import multiprocessing
@@ -39,6 +49,7 @@ import zlib
 from collections import Counter
 
 from harness import grammars as gr
+from harness import c02_shared as sh
 
 TERMINALS = ['a', 'b']
 NAMES = {'N0': 'E', 'N1': 'A', 'N2': 'B'}
@@ -94,7 +105,8 @@ def rule_text(tier):
             "layouts [" + ', '.join(LAYOUTS) + "] and edit styles [" + ', '.join(EDIT_STYLES) + "] chosen by the "
             "CRC32 of the grammar's text) and parsed again; every parse is judged by the same clauses on the token "
             "sequence the list holds at the moment of the call (oracle: the same Earley / brute-force membership). "
-            "non-trivial = LL(1) or conflict-free, and at least one member and one non-member decided")
+            + sh.rule_text(tier) +
+            " non-trivial = LL(1) or conflict-free, and at least one member and one non-member decided")
 
 
 # ---------------------------------------------------------------------------------------------
@@ -336,8 +348,10 @@ def _user_sets(parser, G):
     return nul, fi, fo
 
 
-def evaluate(G, start, terminals, L, reparse_steps=REPARSE_STEPS['quick']):
-    """-> dict(fails=[(clause, keysuffix, text, input or None)], diags=[...], hits=Counter, stats=Counter,
+def evaluate(G, start, terminals, L, reparse_steps=REPARSE_STEPS['quick'], factory=None):
+    """factory: None (a parser is constructed from G itself) or smart_factorization -> LLParser, for parsers whose
+    grammar G is described to the constructor in another way (harness/c02_shared.py); all clauses unchanged.
+    -> dict(fails=[(clause, keysuffix, text, input or None)], diags=[...], hits=Counter, stats=Counter,
                nontrivial=bool, errors=[...])"""
     out = {'fails': [], 'diags': [], 'hits': Counter(), 'stats': Counter(), 'nontrivial': False, 'errors': []}
     fails, diags, hits, stats = out['fails'], out['diags'], out['hits'], out['stats']
@@ -347,7 +361,8 @@ def evaluate(G, start, terminals, L, reparse_steps=REPARSE_STEPS['quick']):
     parsers, amb = {}, {}
     follow_over = False
     for smart in (True, False):
-        kind, val, _ = gr.guarded(lambda: gr.make_parser(G, start, terminals, smart), wall_s=WALL_BUDGET)
+        make = (lambda: factory(smart)) if factory is not None else (lambda: gr.make_parser(G, start, terminals, smart))
+        kind, val, _ = gr.guarded(make, wall_s=WALL_BUDGET)
         if kind != 'ok':
             what = f"{type(val).__name__}" if kind == 'exc' else str(val)
             diags.append(f"constructor(smart_factorization={smart}) fails with {what} for the non-left-recursive "
@@ -560,8 +575,42 @@ def grammars_of(fam, part):
             yield gr.rename(shape, names), names['N0']
 
 
+def work_shared(task):
+    """sessions of harness/c02_shared.py: several parsers of one process built from shared description objects"""
+    _, part, tier = task
+    cases, fails, hits, diags, stats, errors = [], {}, Counter(), [], Counter(), []
+    diag_kinds = set()
+    rsteps = REPARSE_STEPS[tier]
+    for label, T, start in sh.templates(tier, part):
+        for seq_label, token_sets, sharing, schedule in sh.sessions_of(T, tier):
+            L = sh.max_len_for(token_sets, tier)
+            r = sh.run_session(T, start, token_sets, sharing, schedule, L, rsteps, evaluate, WALL_BUDGET)
+            stats.update(r['stats'])
+            hits.update(r['hits'])
+            errors.extend(r['errors'][:1] if len(errors) < 3 else [])
+            for d in r['diags']:
+                kind = d.split('=')[0].split('(')[0][:60]
+                if kind not in diag_kinds and len(diags) < 6:
+                    diag_kinds.add(kind)
+                    diags.append(d)
+            for k, visible, G, rk in r['builds']:
+                cases.append((f"shared description objects [{sh.template_str(T)}] / start {start} / tokenizers "
+                              f"{token_sets} / {sharing} / {schedule} / parser pair {k + 1}: {gr.grammar_str(G)} / "
+                              f"strings <= {L}", rk['nontrivial']))
+            for clause, ksuf, text, k, w in r['fails']:
+                key = f"C02.{clause}:{ksuf}"
+                case = sh.session_case(T, start, token_sets, sharing, schedule, L, rsteps, k, w)
+                size = len(repr(case))
+                cur = fails.get(key)
+                if cur is None or size < cur[3]:
+                    fails[key] = (f"C02.{clause}", text, case, size)
+    return cases, fails, hits, diags, stats, errors
+
+
 def work(task):
     fam, part, tier = task
+    if fam == 'shared-description-objects':
+        return work_shared(task)
     terminals, L = fam[2], fam[7]
     cases, fails, hits, diags, stats, errors = [], {}, Counter(), [], Counter(), []
     diag_kinds = set()
@@ -605,12 +654,17 @@ def work(task):
     return cases, fails, hits, diags, stats, errors
 
 
+SHARED_PARTS = 64
+
+
 def tasks_for(tier):
     out = []
     for fam in families(tier):
         n = 8 if fam[1] == 1 else 96
         for i in range(n):
             out.append((fam, (i, n), tier))
+    for i in range(SHARED_PARTS):
+        out.append(('shared-description-objects', (i, SHARED_PARTS), tier))
     return out
 
 
@@ -663,9 +717,49 @@ def run(b):
                     + ['reparse:edit:' + x.split(' (')[0].split(' buf')[0] for x in EDIT_STYLES])
     if stats['reparse-parses'] == 0:
         b.error("no list of lines was parsed again")
+    # several parsers of one process constructed from the same description objects (AnyTokenExcept instances,
+    # productions dict), tokenizers with more / fewer / the same / other token kinds; each judged by ITS grammar
+    P = 'shared:language-checked:a parser with '
+    b.require_reach(['shared:ll1', 'shared:conflict-free-but-not-ll1-as-written',
+                     'shared:language-checked:the first parser of the session',
+                     P + 'more token kinds than the one constructed before it',
+                     P + 'fewer token kinds than the one constructed before it',
+                     P + 'same token kinds as the one constructed before it',
+                     P + 'other token kinds as the one constructed before it',
+                     'shared:sentence-with-a-token-kind-no-earlier-parser-of-the-session-knew',
+                     'shared:sentence-with-a-token-kind-no-earlier-parser-of-the-session-knew:ll1',
+                     'shared:a-token-kind-of-an-earlier-parser-is-unknown-to-this-one',
+                     'shared:one-AnyTokenExcept-object-in-the-productions-of-two-symbols']
+                    + ['shared:sharing:' + x for x in sh.SHARINGS] + ['shared:schedule:' + x for x in sh.SCHEDULES])
+    if stats['shared:sessions'] == 0 or stats['shared:trees-validated'] == 0:
+        b.error("no session with shared description objects reached the language comparison")
+
+
+def replay_shared(case):
+    T = sh.template_from_json(case['template'])
+    order = case.get('declaration_order')
+    if order is not None:
+        if sorted(order) != sorted(T):
+            raise RuntimeError('declaration_order does not list exactly the symbols of the template')
+        T = {x: T[x] for x in order}
+    token_sets = [list(t) for t in case['token_sets']]
+    if case['sharing'] not in sh.SHARINGS + [sh.SHARE_NONE] or case['schedule'] not in sh.SCHEDULES:
+        raise RuntimeError('unknown sharing mode / schedule')
+    r = sh.run_session(T, case['start'], token_sets, case['sharing'], case['schedule'], int(case.get('max_len', 4)),
+                       int(case.get('reparse_steps', REPARSE_STEPS['quick'])), evaluate, WALL_BUDGET)
+    if r['errors']:
+        raise RuntimeError('; '.join(r['errors'][:3]))
+    if r['skipped']:
+        return True, [f"outside the quantifier of C02: {r['skipped']}"]
+    observed = [f"parser pair {k + 1}, token kinds {v}: grammar [{gr.grammar_str(G)}], is_ll1 = {gr.is_ll1(G, case['start'])}, "
+                f"{len(rk['fails'])} failed clause instance(s)" for k, v, G, rk in r['builds']]
+    observed += [f"{c}: {t}" for c, _, t, _, _ in r['fails']][:4] + r['diags'][:6]
+    return (not r['fails']), observed
 
 
 def replay_case(case):
+    if case.get('kind') == 'shared-description-objects':
+        return replay_shared(case)
     G = gr.from_json(case['grammar'])
     order = case.get('declaration_order')
     if order is not None:       # the declaration order is part of the case (JSON objects need not keep it)
